@@ -185,9 +185,9 @@ func init() {
 		}, rtmpAssume...),
 		Harnesses: []harnessSpec{
 			{Pkg: "rtmp", Func: "HarnessC03_Codec", Labels: []string{"codec"}, Bound: "every packet kind; Size/marshal/unmarshal/re-marshal with symbolic fields", BoundT: "strings also 255/256/65535 bytes"},
-			{Pkg: "rtmp", Func: "HarnessC03_Wire", Labels: []string{"wire"}, Bound: "requests and control packets: WritePacket on one endpoint, ReadMessage+DecodeMessage on the peer, stream id in {0,1,2}"},
+			{Pkg: "rtmp", Func: "HarnessC03_Wire", Labels: []string{"wire"}, Bound: "requests and control packets: WritePacket on one endpoint, ReadMessage+DecodeMessage on the peer, stream id in {0,1,2}; delivered whole, one byte per read, or with the first read ending inside the message"},
 			{Pkg: "rtmp", Func: "HarnessC03_Transactions", Labels: []string{"tx", "tx-matched", "tx-unmatched"}, Bound: "histories of 3 (thorough 5) operations over {send connect, send createStream(tid symbolic > 0), receive _result(tid symbolic, body of either response type)}; ids are symbolic float64 bit patterns compared with IEEE equality"},
-			{Pkg: "rtmp", Func: "HarnessC03_Expect", Labels: []string{"expect", "expect-message", "expect-packet"}, Bound: "2-3 messages of forked kinds {window ack, ping, closeStream, connect}; ExpectMessage(type) for 3 types; ExpectPacket(&*ConnectAppPacket)"},
+			{Pkg: "rtmp", Func: "HarnessC03_Expect", Labels: []string{"expect", "expect-message", "expect-packet", "expect-response"}, Bound: "2-3 messages of forked kinds {window ack, ping, closeStream, connect, one connect response to the reader's own request}; ExpectMessage(type) for 3 types; ExpectPacket(&*ConnectAppPacket) and ExpectPacket(&*ConnectAppResPacket)"},
 		},
 	})
 	reg(&propSpec{
